@@ -2,7 +2,6 @@
 import random
 
 META = {
-    "disabled": True,
     "level": "model_checking",
     "text": "TLC exhaustively checks a specification of the three-act handshake (initiator / responder state machines as in "
             "connection_handshake.go, symbolic injective challenge, nonces from a 3-value domain, two protocol ids) with an attacker on "
